@@ -160,14 +160,16 @@ Proof. constructor; cbn; intros; try discriminate; try tauto. Qed.
 
 Ltac upd_cases :=
   repeat match goal with
+  | E : ?k <> ?j, H : context [upd _ ?j _ ?k] |- _ => rewrite (upd_other _ _ _ _ E) in H
+  | E : ?k <> ?j |- context [upd _ ?j _ ?k] => rewrite (upd_other _ _ _ _ E)
+  | H : context [upd _ ?j _ ?j] |- _ => rewrite upd_same in H
+  | |- context [upd _ ?j _ ?j] => rewrite upd_same
   | H : context [upd _ ?j _ ?k] |- _ =>
       let E := fresh "E" in
-      destruct (N.eq_dec k j) as [E|E];
-      [ try subst k; try rewrite E in *; rewrite upd_same in H | try (exfalso; apply E; reflexivity); rewrite (upd_other _ _ _ _ E) in H ]
+      destruct (N.eq_dec k j) as [E|E]; [ first [subst k | rewrite E in * ] | ]
   | |- context [upd _ ?j _ ?k] =>
       let E := fresh "E" in
-      destruct (N.eq_dec k j) as [E|E];
-      [ try subst k; try rewrite E in *; rewrite upd_same | try (exfalso; apply E; reflexivity); rewrite (upd_other _ _ _ _ E) ]
+      destruct (N.eq_dec k j) as [E|E]; [ first [subst k | rewrite E in * ] | ]
   end.
 
 Ltac inv_some :=
